@@ -40,6 +40,9 @@ def run_setup(ctx, cls, extra_attrs=None):
 
     def update_attribute(I, a, kw):
         I.event("persist", entity=a[0] if a else None, group=a[1] if len(a) > 1 else kw.get("attribute"))
+        if ctx.case == "the-file-refuses-the-write":
+            # a closed workspace (Geoh5FileClosedError) or one opened read-only (UserWarning)
+            I.raise_(UserWarning, "the file refuses the write")
         return None
 
     ua = Opaque("workspace.update_attribute")
@@ -69,12 +72,12 @@ class SetterEffects(Contract):
         return getattr(importlib.import_module(mod), name)
 
     def cases(self):
-        return ["value", "on-cached-object"]
+        return ["value", "on-cached-object"] + (["the-file-refuses-the-write"] if self.resets else [])
 
     def setup(self, ctx):
         cls = self.real_cls()
         me = run_setup(ctx, cls)
-        if ctx.case == "on-cached-object":
+        if ctx.case in ("on-cached-object", "the-file-refuses-the-write"):
             for c in self.resets:
                 me.attrs[c] = Opaque("cached:" + c)
                 ctx.path.assume(~me.attrs[c].none_var())
@@ -111,8 +114,17 @@ class SetterEffects(Contract):
             ctx.oblige(f"derived-cache-{c}-is-reset-whenever-a-field-is-stored", ok, note=f"{c} survives an assignment that stored {sorted(set(stored_fields))}")
 
     def post_raises(self, ctx, sig):
-        # a refused assignment is outside "a valid new value"; nothing is claimed
+        # a refused assignment is outside "a valid new value"; what is claimed: whatever the object now reports, its derived
+        # caches belong to it -- a field stored before the refusal has taken its caches down with it
         ctx.oblige("refused-assignment", True, kind="post-exc")
+        if ctx.case != "the-file-refuses-the-write":
+            return
+        me = ctx.env["me"]
+        trig = set(self.triggers) if self.triggers else {"_" + self.attr}
+        stored_fields = [p["name"] for k, p in ctx.path.events if k == "setattr" and p["target"] == "self" and p["name"] in trig]
+        for c in self.resets:
+            ctx.oblige(f"derived-cache-{c}-does-not-outlive-a-stored-field-when-the-write-is-refused", me.attrs.get(c) is None or not stored_fields, kind="post-exc",
+                       note=f"{sorted(set(stored_fields))} hold the new value, the write was refused, and {c} still holds what was derived from the old value")
 
 
 def make(name, target, cls_path, attr, resets=(), write_through=True, props=("C03",), persistable=None):
